@@ -37,6 +37,8 @@ def run(chk: common.Check, tier: str):
                 f"{len(CONTEXTS)} syntactic positions (groups, optionals, loops, gather element/separator, lookaheads, forced "
                 "items, nested helpers), plus literal/kind grammars x inputs made of keyword-spelled, kind-spelled and plain "
                 "identifiers; non-trivial = the keyword sits below the top level of its rule; distinct by (grammar, input)")
+    rm.shipped_hypothesis(chk, "ids_distinct_b", "C11_generated_keyword_tables_are_exactly_the_quoted_words",
+                           "repetition / gather / group nodes carry pairwise distinct identities")
     gs = list(grammars())
     pairs = rm.krun(chk, "C11", [g for g, _ in gs], lambda t: INPUTS, configs=("q1",))
     ctx_of = dict(gs)
